@@ -685,6 +685,17 @@ func check(prop, tier string) int {
 				continue
 			}
 		}
+		if err == nil && !ok && fv.V.Rule != "race" {
+			// The simulator decides every interleaving, but not choices the code under test draws from the Go runtime
+			// itself (iteration order of its own maps): a violation that depends on one replays with a probability.
+			// It is reported if one of four more fresh processes shows it again; otherwise it stays harness trouble.
+			for i := 0; i < 4 && err == nil && !ok; i++ {
+				ok, hashOK, err = replayFile(rc, fv.Replay)
+			}
+			if ok {
+				merged.Inconclusive["violation reproduced only in a later replay attempt (depends on runtime map order in the code under test)"]++
+			}
+		}
 		if err != nil || !ok {
 			fmt.Fprintf(os.Stderr, "verifctl: violation %s/%s (seed %d) did not reproduce from %s in a fresh process (err=%v) — harness trouble\n", fv.V.Prop, fv.V.Rule, fv.Seed, fv.Replay, err)
 			return 2
